@@ -79,9 +79,20 @@ func Gen(r *rng.R, pf Profile) *Spec {
 			}
 			ref := dep.Label()
 			if pf.Aliases && r.Chance(1, 3) {
-				al := &Alias{Pkg: rng.Pick(r, pkgs), Name: fmt.Sprintf("al%d", aliasN), Actual: ref}
-				aliasN++
-				s.Aliases = append(s.Aliases, al)
+				// an existing alias of the same target is reused half of the time: several
+				// dependants (and several paths) then meet in one alias node
+				var al *Alias
+				for _, old := range s.Aliases {
+					if old.Actual == ref && r.Chance(1, 2) {
+						al = old
+						break
+					}
+				}
+				if al == nil {
+					al = &Alias{Pkg: rng.Pick(r, pkgs), Name: fmt.Sprintf("al%d", aliasN), Actual: ref}
+					aliasN++
+					s.Aliases = append(s.Aliases, al)
+				}
 				ref = al.Label()
 				if r.Chance(1, 4) {
 					al2 := &Alias{Pkg: rng.Pick(r, pkgs), Name: fmt.Sprintf("al%d", aliasN), Actual: ref}
@@ -109,7 +120,15 @@ func Gen(r *rng.R, pf Profile) *Spec {
 			switch kind {
 			case 0: // explicit files
 				f := fmt.Sprintf("src%d_%d.txt", i, k)
-				t.Inputs = append(t.Inputs, f)
+				// a literal input may be spelled non-canonically: it still names the same file
+				spelled := f
+				switch r.Intn(8) {
+				case 0:
+					spelled = "./" + f
+				case 1:
+					spelled = "x/../" + f
+				}
+				t.Inputs = append(t.Inputs, spelled)
 				s.Files[pre+f] = r.Word(3, 40) + "\n"
 			case 1: // flat glob
 				t.Inputs = append(t.Inputs, fmt.Sprintf("g%d_%d_*.txt", i, k))
